@@ -282,9 +282,13 @@ fn check_svsync(w: &mut World, n: usize, kind: &TxnKind, pre: &Pre, missing: boo
     }
     if let TxnKind::Remote(msg, _) = kind {
         let dup = !w.mon.shadow[n].delivered.insert(msg.id);
-        if dup {
-            // the statement claims this for the state vector only: re-applying a payload whose
-            // blocks are still stashed may legitimately integrate them (visible change)
+        if dup && !pre.missing {
+            // "unchanged by re-applying known updates": a payload is known once its blocks are
+            // integrated. While the replica holds a stash, the blocks of an earlier delivery may
+            // still be in it (the stash is one merged update with one `missing` vector, so blocks
+            // whose own dependencies have arrived stay stashed while another stashed block still
+            // waits), and applying the payload again integrates them - a change of the state
+            // vector that the statement does not exclude. Evaluated for stash-free replicas only.
             let d = doc_dump(&w.nodes[n].doc);
             if Some(&sv) != pre.sv.as_ref() {
                 return Err(viol(
